@@ -170,3 +170,59 @@ func vpHC_C20_two_concurrent() {
 	vpCover(a1 && a2, "both accepted")
 	vpCover(a1 != a2 && s1 != s2, "one ignored because it lost the race")
 }
+
+// in_pipeline: the validator installed as a DEFAULT validator and run by the real validation pipeline next to an
+// accepting topic validator, each of them inline or asynchronous (solver variables), from an arbitrary stored nonce: a
+// message whose sequence number is not greater than the stored one is neither released (delivered / forwarded) nor
+// reported as a validation failure (no penalty) - whatever the other validator says and wherever the two run; a fresh
+// one is released once and the nonce advances.
+func vpH_C20_in_pipeline() {
+	vpOpt("bagchans", 1)
+	nd := vpNewNode("self", vpNodeCfg{router: "floodsub", tracer: true})
+	v := nd.ps.val
+	store := &vpFakeStore{val: map[peer.ID][]byte{}}
+	has := vpBool("has_nonce")
+	var nonce uint64
+	if has {
+		nb := vpBytes("nonce", 8)
+		store.val["A"] = nb
+		nonce = binary.BigEndian.Uint64(nb)
+	}
+	sv := &BasicSeqnoValidator{meta: store}
+	seqVal, err := v.makeValidator(&addValReq{validate: ValidatorEx(sv.validate)}, nd.ps.logger)
+	vpAssume(err == nil)
+	seqVal.validateInline = vpBool("seqno_validator_inline")
+	topicVal, err := v.makeValidator(&addValReq{topic: vpT0, validate: func(ctx context.Context, p peer.ID, m *Message) ValidationResult {
+		return ValidationAccept
+	}}, nd.ps.logger)
+	vpAssume(err == nil)
+	topicVal.validateInline = vpBool("topic_validator_inline")
+	seqFirst := vpBool("seqno_validator_first")
+	vals := []*validatorImpl{seqVal, topicVal}
+	if !seqFirst {
+		vals = []*validatorImpl{topicVal, seqVal}
+	}
+	sb := vpBytes("seqno", 8)
+	seqno := binary.BigEndian.Uint64(sb)
+	topic := vpT0
+	msg := &Message{Message: &pb.Message{From: []byte("A"), Seqno: sb, Topic: &topic, Data: []byte("x")}, ReceivedFrom: "p0"}
+	released := 0
+	v.validate(vals, "p0", msg, false, func(*Message) error { released++; return nil })
+	vpFireAll()
+	reasons := nd.tr.rejectReasons()
+	fresh := seqno > nonce // (an author without stored nonce counts as nonce 0)
+	if fresh {
+		vpAssert(released == 1 && len(reasons) == 0, "a message with a greater sequence number is released exactly once")
+		vpAssert(binary.BigEndian.Uint64(store.val["A"]) == seqno, "and the stored nonce advances to it")
+	} else {
+		vpAssert(released == 0, "a replayed or stale sequence number is never released for delivery or forwarding, whatever other validators say")
+		vpAssert(len(reasons) == 1 && reasons[0] == RejectValidationIgnored, "it is ignored, not reported as a validation failure: nobody is penalised")
+		if has {
+			vpAssert(binary.BigEndian.Uint64(store.val["A"]) == nonce, "the stored nonce is unchanged")
+		} else {
+			vpAssert(len(store.val["A"]) == 0, "nothing is stored")
+		}
+	}
+	vpCover(!fresh && seqVal.validateInline && topicVal.validateInline && seqFirst, "stale, both inline, seqno validator first")
+	vpCover(fresh && !seqVal.validateInline, "fresh, asynchronous")
+}
